@@ -150,12 +150,30 @@ theorem list_and_priv_not_stored (ch : RChan) (add : Bool) (f : Byte) (args : Li
   generalize ch.prefixModes.contains f = p
   cases e <;> cases a <;> cases b <;> cases c <;> cases p <;> simp
 
-/-- The mode string the state API shows lists exactly the reported settings. -/
+/-- The mode string the state API shows lists exactly the reported settings: after the "+" come the letters, each in
+    the spelling of the API's `string` type (`Go.strOfByte`). -/
 theorem modesString_letters (ms : List (Byte × Bytes)) (hne : ms ≠ []) :
-    (modesString ms).take (ms.length + 1) = 0x2B :: ms.map (·.1) := by
+    (modesString ms).take ((ms.flatMap fun m => Go.strOfByte m.1).length + 1) =
+      0x2B :: ms.flatMap (fun m => Go.strOfByte m.1) := by
   unfold modesString
   have hpos : ms.length > 0 := List.length_pos_iff.mpr hne
   rw [if_pos hpos, List.append_assoc, List.singleton_append, List.take_succ_cons]
-  rw [List.take_append_of_le_length (by simp), List.take_of_length_le (by simp)]
+  rw [List.take_append_of_le_length (Nat.le_refl _), List.take_of_length_le (Nat.le_refl _)]
+
+/-- … which for ASCII letters (all a server can announce in CHANMODES) is the letters themselves. -/
+theorem modesString_letters_ascii (ms : List (Byte × Bytes)) (hne : ms ≠ []) (ha : ∀ m ∈ ms, m.1 < 0x80) :
+    (modesString ms).take (ms.length + 1) = 0x2B :: ms.map (·.1) := by
+  have e : ms.flatMap (fun m => Go.strOfByte m.1) = ms.map (·.1) := by
+    clear hne
+    induction ms with
+    | nil => rfl
+    | cons m ms ih =>
+      have hm : m.1 < 0x80 := ha m (by simp)
+      rw [List.flatMap_cons, List.map_cons, ih (fun x hx => ha x (by simp [hx]))]
+      unfold Go.strOfByte
+      simp [hm]
+  have h := modesString_letters ms hne
+  rw [e, List.length_map] at h
+  exact h
 
 end Girc.Proofs.SimCor
